@@ -52,9 +52,50 @@ fn flush(out: &mut std::fs::File) {
     out.flush().expect("flush");
 }
 
-fn run_prog(ctx: &Ctx, spin: u32, logcalls: bool) -> Out {
+/// Collections whose iteration order is only known once the instance exists (hash based, heap):
+/// they are built before the `prog` event is written, so that the event can carry the elements in
+/// the order the instance will yield them.
+enum Prebuilt {
+    None,
+    HashSet(std::collections::HashSet<E>),
+    Heap(std::collections::BinaryHeap<E>),
+    List(std::collections::LinkedList<E>),
+}
+
+fn prebuild(p: &Prog) -> (Prebuilt, Option<Vec<(u32, i32)>>) {
+    match p.src.as_str() {
+        "hashset" | "hashsetref" => {
+            let c: std::collections::HashSet<E> = exec::items_of(p).into_iter().collect();
+            let order = c.iter().map(|e| (e.key, e.val)).collect();
+            (Prebuilt::HashSet(c), Some(order))
+        }
+        "heap" | "heapref" => {
+            let c: std::collections::BinaryHeap<E> = exec::items_of(p).into_iter().collect();
+            let order = c.iter().map(|e| (e.key, e.val)).collect();
+            (Prebuilt::Heap(c), Some(order))
+        }
+        "listref" => {
+            let c: std::collections::LinkedList<E> = exec::items_of(p).into_iter().collect();
+            let order = c.iter().map(|e| (e.key, e.val)).collect();
+            (Prebuilt::List(c), Some(order))
+        }
+        _ => (Prebuilt::None, None),
+    }
+}
+
+fn run_prog(ctx: &Ctx, spin: u32, logcalls: bool, pre: Prebuilt) -> Out {
     let p = &ctx.prog;
     let shape = p.shape();
+    match pre {
+        Prebuilt::HashSet(c) => {
+            return if p.src == "hashset" { shapes::run_hashset(&shape, ctx, c) } else { shapes::run_hashsetref(&shape, ctx, &c) }
+        }
+        Prebuilt::Heap(c) => {
+            return if p.src == "heap" { shapes::run_heap(&shape, ctx, c) } else { shapes::run_heapref(&shape, ctx, &c) }
+        }
+        Prebuilt::List(c) => return shapes::run_listref(&shape, ctx, &c),
+        Prebuilt::None => {}
+    }
     match p.src.as_str() {
         "vec" => shapes::run_vec(&shape, ctx, exec::items_of(p)),
         "iter" => shapes::run_iter(&shape, ctx, exec::SrcIter::new(exec::items_of(p), true, spin, logcalls)),
@@ -179,6 +220,12 @@ fn cmd_run(inp: &str, outp: &str) {
         item::tok_reset();
         let sched_on = job.mode != "free";
         sched::begin_program(sched_on, job.sched.clone(), job.seed, job.sticky, job.logcalls != 0);
+        let (pre, order) = prebuild(&job.p);
+        let mut pjson = serde_json::to_value(&job.p).expect("ser");
+        if let Some(o) = &order {
+            let elems: Vec<serde_json::Value> = o.iter().map(|(k, v)| serde_json::json!({"k": k, "v": v})).collect();
+            pjson["elems"] = serde_json::Value::Array(elems);
+        }
         sched::log(&format!(
             "\"e\":\"prog\",\"run\":{},\"mode\":\"{}\",\"seed\":{},\"cthr\":{},\"logcalls\":{},\"track\":{},\"cores\":{},\"p\":{}",
             job.id,
@@ -188,7 +235,7 @@ fn cmd_run(inp: &str, outp: &str) {
             job.logcalls,
             job.track,
             std::thread::available_parallelism().map(|x| x.get()).unwrap_or(1),
-            serde_json::to_string(&job.p).expect("ser")
+            serde_json::to_string(&pjson).expect("ser")
         ));
         flush(&mut out);
 
@@ -215,7 +262,7 @@ fn cmd_run(inp: &str, outp: &str) {
 
         let ctx = Ctx::new(&job.p);
         let spin = job.spin;
-        let res = std::panic::catch_unwind(std::panic::AssertUnwindSafe(|| run_prog(&ctx, spin, job.logcalls != 0)));
+        let res = std::panic::catch_unwind(std::panic::AssertUnwindSafe(|| run_prog(&ctx, spin, job.logcalls != 0, pre)));
         let res = res.map_err(|_| ());
         log_te(&res, job.p.is_big());
         drop(res);
